@@ -183,7 +183,26 @@ func c13Run(kind string, ndest, queue, ncommon int, alphabet []string, hist []in
 	var rcl, rdet string
 	var tMin, tMax int64
 	var pre [][][]byte
+	var preSink *fastSink
+	if ncommon > 0 {
+		// (the configurations with many common tags also have an earlier, unrelated reporter in the process)
+		preSink = newFastSink()
+		defer preSink.close()
+	}
 	cl, det, leaked := controlledCaseLeaks(1, func() {
+		if preSink != nil {
+			// an unrelated reporter (other protocol) created - and used - earlier in the same process: clocks, pools
+			// and measured sizes of the reporter under test are its own
+			other := "compact"
+			if kind == "compact" {
+				other = "binary"
+			}
+			if pre, err := m3.NewReporter(m3.Options{HostPorts: []string{preSink.addr}, Service: "pre", Env: "test", Protocol: m3Proto(other), MaxQueueSize: 4}); err == nil {
+				pre.AllocateCounter("pre", map[string]string{"p": "q"}).ReportCount(1)
+				defer pre.Close()
+			}
+		}
+		ignoreLiveLibraryThreads()
 		tMin = rt.NowNanos()
 		r, err := m3.NewReporter(m3.Options{HostPorts: addrs, Service: "svc", Env: "test", CommonTags: c13CommonTags(ncommon), Protocol: m3Proto(kind), MaxQueueSize: queue})
 		if err != nil {
@@ -192,7 +211,9 @@ func c13Run(kind string, ndest, queue, ncommon int, alphabet []string, hist []in
 		}
 		var hs []*c13Handle
 		// (bounds handed over unsorted: ids and ranges follow the sorted bounds, not the caller's order)
-		vb, db := tally.ValueBuckets{2, 1}, tally.DurationBuckets{2 * time.Second, time.Second}
+		// (... and two duration bounds beyond 2^53 ns that a float64 cannot tell apart)
+		big := time.Duration(1) << 53
+		vb, db := tally.ValueBuckets{2, 1}, tally.DurationBuckets{2 * time.Second, time.Second, big + 1, big}
 		for _, op := range hist {
 			steps++
 			var a, b, c, d string
@@ -256,9 +277,9 @@ func c13Run(kind string, ndest, queue, ncommon int, alphabet []string, hist []in
 					h.h.ValueBucket(0, ups[vi]).ReportSamples(c13Ints[vi])
 					want = append(want, wantKey(h.name, 1, c13Ints[vi], 0, 0, h.tags, fmt.Sprintf("%q=%q", "bucketid", ids[vi]), fmt.Sprintf("%q=%q", "bucket", names[vi])))
 				case "dhist":
-					ups := []time.Duration{time.Second, 2 * time.Second, math.MaxInt64, time.Second}
-					ids := []string{"0000", "0001", "0002", "0000"}
-					names := []string{"-infinity-1s", "1s-2s", "2s-infinity", "-infinity-1s"}
+					ups := []time.Duration{time.Second, 2 * time.Second, big + 1, math.MaxInt64}
+					ids := []string{"0000", "0001", "0003", "0004"}
+					names := []string{"-infinity-1s", "1s-2s", big.String() + "-" + (big + 1).String(), (big + 1).String() + "-infinity"}
 					h.h.DurationBucket(0, ups[vi]).ReportSamples(c13Ints[vi])
 					want = append(want, wantKey(h.name, 1, c13Ints[vi], 0, 0, h.tags, fmt.Sprintf("%q=%q", "bucketid", ids[vi]), fmt.Sprintf("%q=%q", "bucket", names[vi])))
 				}
@@ -329,7 +350,7 @@ func c13Jobs(tier string) []*SeqJob {
 		if c.ncommon > 0 {
 			name += fmt.Sprintf("-%dcommon", c.ncommon+3)
 		}
-		j := &SeqJob{Property: "C13", Name: name, Shards: tierInt(tier, 8, 16), Controlled: true}
+		j := &SeqJob{Property: "C13", NoBonus: tier != "thorough", Name: name, Shards: tierInt(tier, 8, 16), Controlled: true}
 		exec := func(hist []int) (cl, det, key string, steps int) {
 			cl, det = guard(func() (string, string) {
 				a, b, s := c13Run(c.kind, c.ndest, c.queue, c.ncommon, alphabet, hist)
